@@ -57,10 +57,7 @@ func (s *c09Stream) ReassemblyComplete(ac AssemblerContext) bool {
 	return true
 }
 
-type c09Factory struct {
-	streams []*c09Stream
-	keep    bool
-}
+type c09Factory struct{ streams []*c09Stream; keep bool }
 
 func (f *c09Factory) New(n, t gopacket.Flow, tcp *layers.TCP, ac AssemblerContext) Stream {
 	s := &c09Stream{keep: f.keep}
@@ -150,9 +147,9 @@ func c09History(k int, flushes bool, keep bool) {
 	verifReached("history")
 }
 
-func verif_C09_hist2()            { c09History(2, false, false) }
-func verif_C09_hist2_keep()       { c09History(2, false, true) }
-func verif_C09_hist3()            { c09History(3, false, false) }
-func verif_C09_hist2_flush()      { c09History(2, true, false) }
-func verif_C09_hist3_flush()      { c09History(3, true, true) }
+func verif_C09_hist2()       { c09History(2, false, false) }
+func verif_C09_hist2_keep()  { c09History(2, false, true) }
+func verif_C09_hist3()       { c09History(3, false, false) }
+func verif_C09_hist2_flush() { c09History(2, true, false) }
+func verif_C09_hist3_flush() { c09History(3, true, true) }
 func verif_C09_hist2_flush_keep() { c09History(2, true, true) }
